@@ -9291,10 +9291,11 @@ class SVG(Group):
                                 if s.height == 0 or s.width == 0:
                                     raise ZeroDivisionError
                                 viewport_transform = s.viewbox_transform
-                            except ZeroDivisionError:
+                            except (ZeroDivisionError, ValueError):
                                 # The width or height was zero.
                                 # https://www.w3.org/TR/SVG11/struct.html#SVGElementWidthAttribute
                                 # "A value of zero disables rendering of the element."
+                                # A size that cannot be resolved (em, ex) gives no viewport either.
                                 if root is None:
                                     return s  # No more parsing will be done.
                                 # Embedded, only this element and its content is disabled.
@@ -9345,7 +9346,7 @@ class SVG(Group):
                         if context is not None:
                             context.append(s)
                         context = s
-                        if SVG_ATTR_ID in attributes and root is not None and use == 1:
+                        if SVG_ATTR_ID in attributes and isinstance(root, SVG) and use == 1:
                             root.objects[attributes[SVG_ATTR_ID]] = s
                     elif SVG_TAG_PATTERN == tag:
                         s = Pattern(values)
@@ -9469,7 +9470,7 @@ class SVG(Group):
                     SVG_TAG_STYLE,
                 ):
                     attributes = elem.attrib
-                    if SVG_ATTR_ID in attributes and root is not None and use == 0:
+                    if SVG_ATTR_ID in attributes and isinstance(root, SVG) and use == 0:
                         root.objects[attributes[SVG_ATTR_ID]] = s
                 if tag in (SVG_TAG_TEXT, SVG_TAG_TSPAN):
                     try:
